@@ -1573,7 +1573,7 @@ func (a *Agent) TaskPrepare(Command int, Info any, Message *map[string]string, C
 			break
 
 		case DEMON_PIVOT_SMB_DISCONNECT:
-			var AgentID, err = strconv.ParseInt(Param, 16, 32)
+			var AgentID, err = strconv.ParseInt(Param, 16, 64)
 			if err != nil {
 				return nil, err
 			}
@@ -1620,7 +1620,7 @@ func (a *Agent) TaskPrepare(Command int, Info any, Message *map[string]string, C
 			break
 
 		case "stop":
-			FileID, err = strconv.ParseInt(Param, 16, 32)
+			FileID, err = strconv.ParseInt(Param, 16, 64)
 			if err != nil {
 				return nil, err
 			}
@@ -1632,7 +1632,7 @@ func (a *Agent) TaskPrepare(Command int, Info any, Message *map[string]string, C
 			break
 
 		case "resume":
-			FileID, err = strconv.ParseInt(Param, 16, 32)
+			FileID, err = strconv.ParseInt(Param, 16, 64)
 			if err != nil {
 				return nil, err
 			}
@@ -1644,7 +1644,7 @@ func (a *Agent) TaskPrepare(Command int, Info any, Message *map[string]string, C
 			break
 
 		case "remove":
-			FileID, err = strconv.ParseInt(Param, 16, 32)
+			FileID, err = strconv.ParseInt(Param, 16, 64)
 			if err != nil {
 				return nil, err
 			}
@@ -1734,7 +1734,7 @@ func (a *Agent) TaskPrepare(Command int, Info any, Message *map[string]string, C
 		case "rportfwd remove":
 			var SocketID int64
 
-			SocketID, err = strconv.ParseInt(Param, 16, 32)
+			SocketID, err = strconv.ParseInt(Param, 16, 64)
 			if err != nil {
 				return nil, err
 			}
